@@ -61,6 +61,7 @@ type EvoScenario struct {
 	restoring bool
 	// coarseFitness (C17): the deterministic fitness function takes five values only
 	coarseFitness bool
+	modular       bool // a modular start genome with crossovers (C17 only)
 	// SwitchOptsAt > 0: from the epoch with this index on the executor (the same object) is handed a context that carries
 	// another Options object: a by-value copy with the survival threshold, age significance, drop-off age and stolen babies changed
 	SwitchOptsAt int
